@@ -99,6 +99,9 @@ RCP<const Number> Integer::rdiv(const Number &other) const
 
 RCP<const Number> Integer::pow_negint(const Integer &other) const
 {
+    if (this->i == 0) {
+        return ComplexInf;
+    }
     RCP<const Number> tmp = powint(*other.neg());
     if (is_a<Integer>(*tmp)) {
         const integer_class &j = down_cast<const Integer &>(*tmp).i;
